@@ -33,6 +33,9 @@ def parseOp : List String → Option Op
   | ["restore", ids] => do some (.restore (← parseIds ids))
   | ["import", ids] => do some (.importA (← parseIds ids))
   | ["dump"] => some .dump
+  | ["bigcase", n, m] => do
+    let imp ← if m = "restore" then some false else if m = "import" then some true else none
+    some (.bigcase (← n.toNat?) imp)
   | _ => none
 
 /-! ### rendering -/
@@ -74,6 +77,7 @@ def render : Obs → String
     s!"arch={showNames arch} files={showFiles files} blocks={showBlocks blocks} {showDump d}"
   | .target files d => s!"files={showNames files} {showDump d}"
   | .dumped d => showDump d
+  | .big src dst => s!"src={src} dst={dst}"
 
 /-! ### parsing observations -/
 
@@ -144,7 +148,10 @@ def parseObs (s : String) : Option Obs :=
   | [a, f, b, p, se] => do
     some (.snapshot (← parseNames (← field "arch" a)) (← parseFiles (← field "files" f))
       (← parseBlocks (← field "blocks" b)) (← parseDump p se))
-  | [p, se] => do some (.dumped (← parseDump p se))
+  | [p, se] =>
+    match field "src" p, field "dst" se with
+    | some a, some b => some (.big a b)
+    | _, _ => do some (.dumped (← parseDump p se))
   | _ => none
 
 /-! ### driver -/
@@ -158,7 +165,7 @@ def opTag : Op → String
   | .write .. => "write" | .delete .. => "delete" | .snap => "snap" | .compact => "compact"
   | .age _ => "age" | .backup _ none => "backup-full" | .backup _ (some _) => "backup-incr"
   | .export .. => "export" | .restore [_] => "restore" | .restore _ => "restore-chain"
-  | .importA _ => "import" | .dump => "dump"
+  | .importA _ => "import" | .dump => "dump" | .bigcase .. => "bigcase"
 
 def dedupS (xs : List String) : List String :=
   xs.foldl (fun acc x => if acc.contains x then acc else acc ++ [x]) []
@@ -180,6 +187,7 @@ def oracle (obs : List (List String × String)) : Verdict :=
       | .restore _, .target .. => true
       | .importA _, .target .. => true
       | .export .., _ => true
+      | .bigcase .., .big .. => true
       | _, _ => false
     match fs.find? (fun s => !s.known), fs.head? with
     | some s, _ => { ok := false, nontrivial := true, tags := tags, reason := s.name ++ s!":{fs.length}-failure(s)" }
